@@ -877,3 +877,31 @@ def kind_mismatches(text):
         if abs(a - b) > 4 * _np.spacing(abs(b)):
             out.append((nm, val, a, b))
     return out
+
+
+def literal_kind_mismatches(text, unit='stpnt'):
+    """assignments `<lhs> = <real literal>` inside `unit` whose targets are double precision while the literal is a
+    default-real one (no d exponent, no kind suffix): Fortran converts the literal to binary32 first.  Returns
+    [(lhs, literal, value_stored, value_written)] for the literals that binary32 does not hold exactly - decided exactly
+    (the two roundings are computed and compared as rationals)."""
+    import numpy as _np
+    from fractions import Fraction as _F
+    out = []
+    m = re.search(rf"subroutine\s+{unit}\b(.*?)end\s+subroutine\s+{unit}", text, re.I | re.S)
+    if not m:
+        return out
+    body = m.group(1)
+    dbl = set()
+    for d in re.finditer(r"^\s*double\s+precision[^:\n]*::\s*(.*)$", body, re.I | re.M):
+        dbl |= {x.split('(')[0].strip().lower() for x in _split_top(d.group(1))}
+    for a in re.finditer(r"^\s*(\w+)\s*\(\s*(\d+)\s*\)\s*=\s*([^!\n]+?)\s*(?:!.*)?$", body, re.M):
+        name, idx, rhs = a.group(1).lower(), a.group(2), a.group(3).strip()
+        if name not in dbl:
+            continue
+        if not re.fullmatch(r"[+-]?(\d+\.\d*|\.\d+|\d+)([eE][+-]?\d+)?", rhs) or not re.search(r"[.eE]", rhs):
+            continue          # not a default-real literal (integer, d exponent, kind suffix, expression)
+        written = _F(float(rhs))
+        stored = _F(float(_np.float32(float(rhs))))
+        if stored != written:
+            out.append((f"{name}({idx})", rhs, float(stored), float(written)))
+    return out
